@@ -20,7 +20,11 @@ Inductive pcase :=
 | CRefP (a : P3) (f : Z * Z) (a' : P3)
 | CRefS (a : P3) (f : Z * Z) (a' : P3)
 | COp (ops : list opev) (final : list (P3 * (Z * Z))) (m : option (list (list (Z * Z))))
-| CCtor (z x : list Z) (q : Z) (r : option P3).
+| CCtor (z x : list Z) (q : Z) (r : option P3)
+| CWHerm (a : P3) (w : Z * Z) (r : bool)
+| CWUnit (a : P3) (w : Z * Z) (r : bool)
+| COpHerm (op : list (P3 * (Z * Z))) (r : bool)
+| CPUnit (a : P3) (r : bool).
 
 Definition mat_eqb (a b : list (list (Z * Z))) : bool := list_eqb (list_eqb zi_eqb) a b.
 
@@ -40,6 +44,10 @@ Definition run_op (st : list (wstr (K:=ZI))) (e : opev) : list (wstr (K:=ZI)) :=
   end.
 
 Definition nq (a : P3) : nat := length (fst (fst a)).
+
+(** WeightedPauliString.is_hermitian: (phase[q] * weight).imag == 0 *)
+Definition wherm_flag (a : P3) (w : Z * Z) : bool :=
+  let t := smul (s:=ZI) (mipz (K:=ZI) (snd a)) w in zi_eqb (sconj (s:=ZI) t) t.
 
 Definition check (c : pcase) : bool :=
   match c with
@@ -63,6 +71,10 @@ Definition check (c : pcase) : bool :=
          | _, _ => false
          end
   | CCtor z x q r => opt_p3_eqb (option_map un (pauli_ctor z x q)) r
+  | CWHerm a w r => Bool.eqb (wherm_flag a w) r
+  | CWUnit a w r => Bool.eqb (zi_eqb (smul (s:=ZI) w (sconj (s:=ZI) w)) (s1 (s:=ZI))) r
+  | COpHerm op r => Bool.eqb (forallb (fun pw => wherm_flag (fst pw) (snd pw)) op) r
+  | CPUnit a r => Bool.eqb true r
   end.
 
 Definition bad_cases (cs : list (nat * pcase)) : list nat :=
